@@ -119,11 +119,11 @@ func init() {
 	worlds["fsworld"].probes = map[string][]string{"*": {"traces_validated_against_real_fs", "fs.rename:EXDEV", "fs.write:ENOSPC", "fs.read:EIO", "fs.unlink:EPERM", "fs.truncate:EIO"}}
 	propWorld["C18"] = "fsworld"
 	worlds["httpworld"].probes = map[string][]string{
-		"C05": {"route_with_more_params_added_after_store_pooled", "pool.miss_with_items", "pool.stale_pick"},
-		"C15": {"panic_before_writing", "panic_after_status", "panic_after_partial_body", "client.write_error", "pool.stale_pick"}}
+		"C05": {"panic_unwinds_through_servehttp", "route_with_more_params_added_after_store_pooled", "pool.miss_with_items", "pool.stale_pick"},
+		"C15": {"abort_handler_panic", "panic_before_writing", "panic_after_status", "panic_after_partial_body", "client.write_error", "pool.stale_pick"}}
 	propWorld["C05"] = "httpworld"
 	propWorld["C15"] = "httpworld"
-	worlds["logworld"].probes = map[string][]string{"*": {"line_over_pool_limit", "long_key_path", "empty_derivation", "siblings_of_derived_parent", "inline_group", "below_threshold", "slow_write", "folded_compared", "pool.miss_with_items", "pool.stale_pick", "sink.short_write", "sink.write_error"}}
+	worlds["logworld"].probes = map[string][]string{"*": {"line_over_pool_limit", "line_near_pool_limit", "long_key_path", "empty_derivation", "siblings_of_derived_parent", "inline_group", "below_threshold", "slow_write", "folded_compared", "pool.miss_with_items", "pool.stale_pick", "sink.short_write", "sink.write_error"}}
 	propWorld["C02"] = "logworld"
 	propWorld["C03"] = "logworld"
 	worlds["filterworld"].probes = map[string][]string{
